@@ -343,6 +343,37 @@ theorem clampCos_le_neg_one {c : ℝ} : clampCos c ≤ -1 ↔ c ≤ -1 := by
     · norm_num at h
   · intro h; exact max_le le_rfl (le_trans (min_le_left _ _) h)
 
+/-- `Real.arccos` already projects its argument to `[-1, 1]`, so the clamp is invisible at `ℝ` -/
+theorem arccos_clampCos (c : ℝ) : Real.arccos (clampCos c) = Real.arccos c := by
+  rw [clampCos_eq]
+  rcases le_total c (-1) with h | h
+  · rw [max_eq_left (le_trans (min_le_left _ _) h), Real.arccos_of_le_neg_one h,
+      Real.arccos_neg_one]
+  · rcases le_total c 1 with h1 | h1
+    · rw [min_eq_left h1, max_eq_right h]
+    · rw [min_eq_right h1, max_eq_right (by norm_num), Real.arccos_one,
+        Real.arccos_eq_zero.2 h1]
+
+theorem dist2U_eq (a b : List ℝ) :
+    dist2U a b = Real.arccos (dot a b) * Real.arccos (dot a b) := by
+  unfold dist2U
+  rw [sq_real, prim_acos, arccos_clampCos]
+
+/-- the guard `1 - c² ≤ 0` of the unit-vector gradient holds: null vector -/
+theorem dist2UGrad_of_guard (a b : List ℝ) (h : 1 ≤ dot a b * dot a b) :
+    dist2UGrad a b = [0.0, 0.0, 0.0] := by
+  unfold dist2UGrad
+  simp only []
+  rw [if_pos (by norm_num; linarith)]
+
+/-- the guard is false: the quotient formula -/
+theorem dist2UGrad_of_lt (a b : List ℝ) (h : dot a b * dot a b < 1) :
+    dist2UGrad a b =
+      vscale (2.0 * Real.arccos (dot a b) * (-1.0) / √(1.0 - dot a b * dot a b)) b := by
+  unfold dist2UGrad
+  simp only [prim_acos, prim_sqrt]
+  rw [if_neg (by norm_num; linarith)]
+
 theorem dist2Q_eq (a b : List ℝ) :
     dist2Q Real.pi a b =
       if dot a b > 0 then Real.arccos (clampCos (dot a b)) * Real.arccos (clampCos (dot a b))
